@@ -45,11 +45,16 @@ class Tree:
         self.pool = os.path.join(root, 'pool')
         os.makedirs(self.pool)
         self.conf = os.path.join(root, 'snapraid.conf')
+        self.has_pool = pool
+        self.write_conf(share)
+
+    def write_conf(self, share=None):
+        """(re)write the configuration, e.g. with another share prefix between two pool runs"""
         with open(self.conf, 'w') as f:
-            f.write('blocksize 1\nparity %s/par/p.par\ncontent %s/content\n' % (root, root))
+            f.write('blocksize 1\nparity %s/par/p.par\ncontent %s/content\n' % (self.root, self.root))
             for n, d in self.disks:
                 f.write('data %s %s\n' % (n, d))
-            if pool:
+            if self.has_pool:
                 f.write('pool %s\n' % self.pool)
             if share:
                 f.write('share %s\n' % share)
